@@ -586,6 +586,11 @@ pub const BAD_505: &[&[u8]] = &[
     // what a refused request says about the connection is not acted upon: the connection stays
     b"GET /v2 HTTP/2.0\r\nHost: x\r\nConnection: close\r\n\r\n",
     b"GET /v2 HTTP/2.0\r\nHost: x\r\nConnection: Upgrade, HTTP2-Settings\r\nUpgrade: h2c\r\nHTTP2-Settings: AAMAAABkAAQAAP__\r\n\r\n",
+    // ... nor what it says about an upgrade: its body is skipped like any other refused body
+    // (found by the proof of C10.pipeline_with_refused_requests: finding F12, fixed in 1a35ef2)
+    b"POST /v2 HTTP/2.0\r\nConnection: upgrade\r\nContent-Length: 26\r\n\r\nGET /smuggled HTTP/1.1\r\n\r\n",
+    b"POST /v3 HTTP/3.0\r\nConnection: keep-alive, Upgrade\r\nUpgrade: h2c\r\nTransfer-Encoding: chunked\r\n\r\n1a\r\nGET /smuggled HTTP/1.1\r\n\r\n\r\n0\r\n\r\n",
+    b"POST /v2 HTTP/2.0\r\nConnection: upgrade\r\nContent-Length: 4\r\n\r\nbody",
 ];
 pub const BAD_SILENT: &[&[u8]] = &[b"GET /\xc3\xa9 HTTP/1.1\r\nHost: x\r\n\r\n", b"GET / HTTP/1.1\r\nX-Name: caf\xe9\r\n\r\n", b"G\xffT / HTTP/1.1\r\n\r\n"];
 
